@@ -126,6 +126,39 @@ def run(tier, seed):
                 events2 = rec.events + [DP.ret_event(S, rec, ret2, c, lims2, with_c05=False)]
                 traces.append(DP.to_trace(c, lims2, events2, name + ' (second run on the same driver object, first limits %s)' % lims))
                 rep.count(1, key=(name, 'second', json.dumps(lims), json.dumps(lims2)), nontrivial=len(events2) > 2)
+            # the stopped run is continued with other limits (continue_adaptive_refinement, or a new call that is handed the run's own refinement):
+            # the stopping rules hold for the continuation as well, with the limits of the continuation
+            # (extend-split and cell runs are not continued here: their continuation re-evaluates the areas still marked new - recorded finding of C14)
+            if c['strategy'] == 'dimwise' and evp is None and rng.random() < 0.5:
+                lims3 = dict(rng.choice(lims_list))
+                if lims3['max'] is None or lims3['max'] > max(nps):
+                    lims3['max'] = int(max(nps))      # a continuation always carries a finite point budget (termination)
+                via = rng.choice(['resume', 'resume', 'container'])
+                try:
+                    n1 = len(rec.events)
+                    rec.tol = lims3['tol']
+                    rec.skip_np = True      # (the point count of a continuation restarts from the current grid: the independent count since object creation is not comparable)
+                    with impl.quiet(), impl.watchdog(c.get('timeout', 240)):
+                        if via == 'resume':
+                            ret3 = S['combi'].continue_adaptive_refinement(tol=lims3['tol'], max_evaluations=lims3['max'], min_evaluations=lims3['min'])
+                        else:
+                            ret3 = S['combi'].performSpatiallyAdaptiv(c['lmin'], c['lmax'], S['ec'], tol=lims3['tol'], max_evaluations=lims3['max'], min_evaluations=lims3['min'],
+                                                                     print_output=False, refinement_container=S['combi'].refinement)
+                    ev3 = DP.ret_event(S, rec, ret3, c, lims3, with_c05=False)
+                    if via == 'resume':
+                        ev3['lens'] = []      # the history arrays of a resumed run keep the entries of the first part: their length is not one per evaluation of this part
+                    # the continuation is judged as a run of its own that starts from the refinement reached so far (its first evaluation re-evaluates
+                    # the current grid; the reported point count restarts from that grid, so it is not compared with the counts of the first part)
+                    events3 = rec.events[n1:] + [ev3]
+                    tr3 = DP.to_trace(c, lims3, events3, name + ' (continuation via %s of a run stopped by limits %s, limits %s)' % (via, lims, lims3))
+                    tr3['_sig'] = {'continued': True, 'via': via}
+                    traces.append(tr3)
+                    rep.count(1, key=(name, 'continued', via, json.dumps(lims), json.dumps(lims3)), nontrivial=len(events3) > len(events) + 2)
+                except impl.Timeout:
+                    rep.exclude('%s continuation with limits %s: timeout' % (name, lims3))
+                except Exception as ex:
+                    rep.violation('C13_NoException', {'strategy': c['strategy'], 'exception': type(ex).__name__, 'continued': True, 'via': via},
+                                  {'config': str(c), 'limits': [lims, lims3], 'exception': repr(ex)}, what='%s continued via %s with limits %s raised %r' % (name, via, lims3, ex))
             rep.sample({'config': name, 'limits': lims, 'events': [{k: v for k, v in e.items() if k in ('k', 'eok', 'np', 'lens')} for e in events][:8]}, limit=4)
     return conclude(rep, traces, ('C13_',))
 
